@@ -4,7 +4,7 @@
 # anchors (exit 2), undo the change.  Output: one line per seed.
 cd "$(dirname "$0")/.." || exit 2
 git -C /repo diff --quiet || { echo "/repo is dirty"; exit 2; }
-PROPS="C01 C02 C04 C05 C06 C07 C08 C09 C10 C11 C12 C13 C14 C15 C16 C17 C18 C19 C20"
+PROPS="C01 C02 C03 C04 C05 C06 C07 C08 C09 C10 C11 C12 C13 C14 C15 C16 C17 C18 C19 C20"
 for d in seeded/*/; do
   id=$(basename "$d")
   git -C /repo apply "$(pwd)/$d/patch.diff" || { echo "$id: patch does not apply"; continue; }
